@@ -245,6 +245,12 @@ def drift_case(asm, acc, case, compress):
     else:
         base = -(want - (s0 - t))
     items = drift_program(random.Random(seedtxt), base)
+    if case['idx'] % 6 == 5:
+        # the moving label carries a name that Python would not look up (`__debug__`), or would read as an attribute / a look-alike of
+        # another name: for the decision between the two forms of li it is a label like any other
+        nm = ['__debug__', 'T.real', 'T\u00ba', '__debug__', 'S.imag'][case['idx'] // 6 % 5]
+        items = P.rename_labels(items, {'T': nm})
+        acc['ctr']['drift_programs_with_a_python_reading_label_name'] += 1
     return items, want
 
 
